@@ -1,4 +1,4 @@
-\* quick+thorough: 2 keys x {empty,v1} x nested bucket; 2 write txs x 2 ops; commit/rollback, flush or not, crash between commits, clean restart
+\* quick+thorough: 2 keys x {empty,v1} x nested bucket; 2 write txs x 2 ops; commit/rollback, flush or not, crash between commits and after every I/O call of a commit, clean restart
 INIT Init
 NEXT Next
 CONSTANTS
@@ -15,7 +15,7 @@ CONSTANTS
   Readers <- NoReaders
   MaxReads = 0
   MaxFaults = 0
-  CrashMode = "idle"
+  CrashMode = "steps"
   PowerLoss = FALSE
   MaxCrash = 1
   FlushModes <- FlushBoth
